@@ -1,10 +1,238 @@
+(* C13 -- proofs about the executable model of the memory views (Model/MemIO.v): the transfer
+   arithmetic of read/write, confinement of every controller access, nesting of slices, dead views,
+   truncation warnings, the range of a slice, and the refutations for the code as found.
+   The refinement of the fixed-length file is in Proofs/MemIORefine.v.  No axioms. *)
 From Coq Require Import ZArith List Bool Lia.
 Require Import Rig.Model.Base Rig.Model.MemIO Rig.Spec.MemIO.
 Import ListNotations.
 Open Scope Z_scope.
 
-Lemma write_escapes_orig_witness :
-  exists c, In c (o_calls (snd (step_orig (fst (step_orig (init 100 104 (fun _ => 0)) (OView 0 (Seek 6 0))))
-                                   (OView 0 (Write [1;2;3;4;5;6;7;8])))))
-            /\ c = CWrite 106 [1;2;3;4;5;6].
-Proof. eexists. split; [left; reflexivity | reflexivity]. Qed.
+(* case analysis on one boolean comparison of the goal at a time *)
+Ltac zcase :=
+  match goal with
+  | |- context [?a >? ?b] => rewrite (Z.gtb_ltb a b)
+  | |- context [?a <? ?b] => destruct (Z.ltb_spec a b)
+  | |- context [?a <=? ?b] => destruct (Z.leb_spec a b)
+  | |- context [?a =? ?b] => destruct (Z.eqb_spec a b)
+  end.
+Ltac zcases := repeat zcase.
+
+(* ------------------------------------------------------------------------------------------ *)
+(* lists                                                                                        *)
+(* ------------------------------------------------------------------------------------------ *)
+Lemma zlen_nonneg : forall A (l : list A), 0 <= zlen l.
+Proof. intros A l. unfold zlen. lia. Qed.
+
+Lemma zlen_nil : forall A, zlen (@nil A) = 0.
+Proof. reflexivity. Qed.
+
+Lemma zlen_firstn : forall A (l : list A) k, 0 <= k -> zlen (firstn (Z.to_nat k) l) = Z.min k (zlen l).
+Proof. intros A l k Hk. unfold zlen. rewrite firstn_length. lia. Qed.
+
+Lemma zlen_zero : forall A (l : list A), zlen l = 0 -> l = [].
+Proof. intros A l H. destruct l as [|x l]; [reflexivity|]. unfold zlen in H. cbn [length] in H. lia. Qed.
+
+Lemma set_nth_length : forall A i (x : A) l, length (set_nth i x l) = length l.
+Proof.
+  intros A i x l. revert i. induction l as [|h t IH]; intros i; destruct i as [|j]; cbn [set_nth length];
+    try reflexivity. rewrite IH. reflexivity.
+Qed.
+
+Lemma set_nth_same : forall A i (x : A) l, nth_error l i = Some x -> set_nth i x l = l.
+Proof.
+  intros A i x l. revert i. induction l as [|h t IH]; intros i H; destruct i as [|j]; cbn in *;
+    try discriminate; try reflexivity.
+  - inversion H. reflexivity.
+  - rewrite (IH j H). reflexivity.
+Qed.
+
+Lemma nth_error_set_nth_eq : forall A i (x : A) l, (i < length l)%nat -> nth_error (set_nth i x l) i = Some x.
+Proof.
+  intros A i x l. revert i. induction l as [|h t IH]; intros i H; destruct i as [|j]; cbn in *;
+    try lia; try reflexivity. apply IH. lia.
+Qed.
+
+Lemma nth_error_set_nth_neq : forall A i j (x : A) l, i <> j -> nth_error (set_nth i x l) j = nth_error l j.
+Proof.
+  intros A i j x l. revert i j. induction l as [|h t IH]; intros i j H; destruct i as [|i']; destruct j as [|j'];
+    cbn in *; try reflexivity; try congruence. apply IH. congruence.
+Qed.
+
+Lemma Forall_set_nth : forall A (P : A -> Prop) i x l, Forall P l -> P x -> Forall P (set_nth i x l).
+Proof.
+  intros A P i x l. revert i. induction l as [|h t IH]; intros i Hl Hx; destruct i as [|j]; cbn [set_nth].
+  - constructor.
+  - constructor.
+  - inversion Hl; subst. constructor; assumption.
+  - inversion Hl; subst. constructor; [assumption|]. apply IH; assumption.
+Qed.
+
+Lemma nth_error_Forall : forall A (P : A -> Prop) l i x, Forall P l -> nth_error l i = Some x -> P x.
+Proof.
+  intros A P l i x Hl Hn. rewrite Forall_forall in Hl. apply Hl. eapply nth_error_In. exact Hn.
+Qed.
+
+(* ------------------------------------------------------------------------------------------ *)
+(* read / write: how many bytes move, and when a warning is given                               *)
+(* ------------------------------------------------------------------------------------------ *)
+Definition read_req (v : view) (n : Z) : Z := if n <? 0 then vlen v - v_off v else n.
+
+Lemma read_plan_spec : forall v n,
+  let k := snd (read_plan v n) in
+  (0 <? fst (read_plan v n)) = warned (v_off v) (read_req v n) (vlen v)
+  /\ (0 < k -> k = transfer (v_off v) (read_req v n) (vlen v))
+  /\ (k <= 0 -> transfer (v_off v) (read_req v n) (vlen v) = 0).
+Proof.
+  intros v n. unfold read_plan, read_req, warned, transfer, vlen, address. cbn [fst snd].
+  destruct v as [s e off cl]; cbn [v_start v_end v_off].
+  destruct (Z.ltb_spec n 0) as [Hn|Hn];
+    zcases; cbn [andb orb fst snd]; zcases; repeat split; intros; cbn [andb orb] in *;
+    try reflexivity; try lia.
+Qed.
+
+Lemma write_plan_spec : forall v bs,
+  let b := snd (write_plan v bs) in
+  let k := transfer (v_off v) (zlen bs) (vlen v) in
+  (0 <? fst (write_plan v bs)) = warned (v_off v) (zlen bs) (vlen v)
+  /\ zlen b = k /\ b = firstn (Z.to_nat k) bs.
+Proof.
+  intros v bs. unfold write_plan, warned, transfer, vlen, address, py_prefix. cbn [fst snd].
+  destruct v as [s e off cl]; cbn [v_start v_end v_off].
+  pose proof (zlen_nonneg _ bs) as Hbs.
+  destruct (off <? 0) eqn:Eoff; cbn [andb orb].
+  - apply Z.ltb_lt in Eoff.
+    destruct (zlen bs >? 0) eqn:Epos; cbn [andb orb fst snd].
+    + rewrite zlen_nil. rewrite Z.gtb_ltb in Epos. apply Z.ltb_lt in Epos.
+      zcases; cbn [fst snd]; rewrite ?firstn_nil; change (Z.to_nat 0) with 0%nat; cbn [firstn];
+        rewrite ?zlen_nil; repeat split; try reflexivity; try lia.
+    + rewrite Z.gtb_ltb in Epos. apply Z.ltb_ge in Epos.
+      assert (Hz : zlen bs = 0) by lia. rewrite (zlen_zero _ _ Hz). rewrite zlen_nil.
+      zcases; cbn [fst snd]; rewrite ?firstn_nil; rewrite ?zlen_nil; repeat split; try reflexivity; try lia.
+  - apply Z.ltb_ge in Eoff.
+    destruct (off + s + zlen bs >? e) eqn:Eover; cbn [fst snd]; rewrite Z.gtb_ltb in Eover.
+    + apply Z.ltb_lt in Eover.
+      assert (Hge : (Z.max 0 (e - (off + s)) <? 0) = false) by (apply Z.ltb_ge; lia).
+      rewrite Hge.
+      assert (Hk : Z.max 0 (Z.min (zlen bs) (e - s - off)) = Z.max 0 (e - (off + s))) by lia.
+      rewrite Hk. rewrite zlen_firstn by lia.
+      repeat split; lia.
+    + apply Z.ltb_ge in Eover.
+      assert (Hk : Z.max 0 (Z.min (zlen bs) (e - s - off)) = zlen bs) by lia.
+      rewrite Hk. assert (Hn : Z.to_nat (zlen bs) = length bs) by (unfold zlen; apply Nat2Z.id).
+      rewrite Hn, firstn_all.
+      repeat split; try reflexivity; lia.
+Qed.
+
+Lemma transfer_bounds : forall pos req n, 0 < transfer pos req n -> 0 <= pos /\ pos + transfer pos req n <= n.
+Proof. intros pos req n. unfold transfer. zcases; lia. Qed.
+
+(* ------------------------------------------------------------------------------------------ *)
+(* one method call: accesses inside the view, range unchanged, slices nested                    *)
+(* ------------------------------------------------------------------------------------------ *)
+Lemma read_calls : forall m v n v' out,
+  read m v n = (v', out) ->
+  (forall c, In c (o_calls out) -> call_within (v_start v) (v_end v) c)
+  /\ v_start v' = v_start v /\ v_end v' = v_end v /\ v_closed v' = v_closed v.
+Proof.
+  intros m v n v' out H. unfold read in H.
+  pose proof (read_plan_spec v n) as Hsp. cbv zeta in Hsp.
+  destruct (read_plan v n) as [w k]; cbn [fst snd] in Hsp.
+  destruct Hsp as (_ & Hpos & _).
+  destruct (k <=? 0) eqn:Ek; inversion H; subst; clear H; cbn [o_calls].
+  - split; [intros c []|]. repeat split.
+  - apply Z.leb_gt in Ek. specialize (Hpos Ek).
+    assert (Hb := transfer_bounds (v_off v) (read_req v n) (vlen v)). rewrite <- Hpos in Hb.
+    specialize (Hb Ek). unfold vlen in Hb.
+    split; [|repeat split].
+    intros c [Hc|[]]. subst c. unfold call_within, address. lia.
+Qed.
+
+Lemma write_calls : forall v bs v' out,
+  write v bs = (v', out) ->
+  (forall c, In c (o_calls out) -> call_within (v_start v) (v_end v) c)
+  /\ v_start v' = v_start v /\ v_end v' = v_end v /\ v_closed v' = v_closed v.
+Proof.
+  intros v bs v' out H. unfold write in H.
+  pose proof (write_plan_spec v bs) as Hsp. cbv zeta in Hsp.
+  destruct (write_plan v bs) as [w b]; cbn [fst snd] in Hsp.
+  destruct Hsp as (_ & Hlen & _).
+  destruct (zlen b =? 0) eqn:Ek; inversion H; subst v' out; clear H; cbn [o_calls].
+  - split; [intros c []|]. repeat split.
+  - apply Z.eqb_neq in Ek. pose proof (zlen_nonneg _ b) as Hnn.
+    assert (Hpos : 0 < transfer (v_off v) (zlen bs) (vlen v)) by lia.
+    assert (Hb := transfer_bounds _ _ _ Hpos). unfold vlen in Hb, Hlen.
+    split; [|repeat split].
+    intros c [Hc|[]]. subst c. unfold call_within, address. lia.
+Qed.
+
+Lemma seek_same_range : forall v n wh v' out,
+  seek v n wh = (v', out) ->
+  o_calls out = [] /\ v_start v' = v_start v /\ v_end v' = v_end v /\ v_closed v' = v_closed v.
+Proof.
+  intros v n wh v' out H. unfold seek in H.
+  destruct (wh =? 0); [|destruct (wh =? 1); [|destruct (wh =? 2)]]; inversion H; subst; repeat split.
+Qed.
+
+Lemma slice_view_nested : forall v a b,
+  v_start v <= v_end v ->
+  let w := slice_view v a b in
+  v_start v <= v_start w /\ v_start w <= v_end w /\ v_end w <= v_end v.
+Proof.
+  intros v a b Hwf. unfold slice_view, new_view, slice_start, slice_stop. cbn [v_start v_end].
+  destruct a as [x|]; destruct b as [y|]; zcases; lia.
+Qed.
+
+(* everything vstep guarantees about ranges, in one statement *)
+Lemma vstep_ranges : forall fr m v o v' nw out,
+  vstep fr m v o = (v', nw, out) ->
+  (forall c, In c (o_calls out) -> call_within (v_start v) (v_end v) c)
+  /\ v_start v' = v_start v /\ v_end v' = v_end v
+  /\ (v_closed v = true -> v_closed v' = true)
+  /\ (forall w, nw = Some w ->
+        exists a b step, o = Slice a b step /\ w = slice_view v a b
+                         /\ o_res out = Ok (VView (v_start w) (v_end w)) /\ dead fr v = false).
+Proof.
+  intros fr m v o v' nw out H.
+  (* a branch that returns the view unchanged (or only closed), no new view, no call *)
+  assert (Hquiet : forall v1 r, (v1 = v \/ v1 = set_closed v) ->
+            (v', nw, out) = (v1, @None view, mkOut r 0 []) ->
+            (forall c, In c (o_calls out) -> call_within (v_start v) (v_end v) c)
+            /\ v_start v' = v_start v /\ v_end v' = v_end v
+            /\ (v_closed v = true -> v_closed v' = true)
+            /\ (forall w, nw = Some w ->
+                  exists a b step, o = Slice a b step /\ w = slice_view v a b
+                         /\ o_res out = Ok (VView (v_start w) (v_end w)) /\ dead fr v = false)).
+  { intros v1 r Hv1 Heq. inversion Heq; subst v' nw out. cbn [o_calls].
+    split; [intros c []|].
+    destruct Hv1 as [Hv1|Hv1]; subst v1; cbn [set_closed v_start v_end v_closed];
+      (split; [reflexivity|]; split; [reflexivity|]; split; [tauto|]; intros w Hw; discriminate). }
+  destruct o as [n wh|n|bs|a b step| | | | | ]; cbn [vstep] in H.
+  - destruct (dead fr v) eqn:Ed; [symmetry in H; apply (Hquiet v _ (or_introl eq_refl) H)|].
+    destruct (seek v n wh) as [v1 r] eqn:Es. inversion H; subst v1 nw r; clear H.
+    destruct (seek_same_range _ _ _ _ _ Es) as (Hc & Hs & He & Hcl).
+    rewrite Hc. split; [intros c []|]. split; [assumption|]. split; [assumption|].
+    split; [congruence|]. intros w Hw; discriminate.
+  - destruct (dead fr v) eqn:Ed; [symmetry in H; apply (Hquiet v _ (or_introl eq_refl) H)|].
+    destruct (read m v n) as [v1 r] eqn:Es. inversion H; subst v1 nw r; clear H.
+    destruct (read_calls _ _ _ _ _ Es) as (Hc & Hs & He & Hcl).
+    split; [assumption|]. split; [assumption|]. split; [assumption|].
+    split; [congruence|]. intros w Hw; discriminate.
+  - destruct (dead fr v) eqn:Ed; [symmetry in H; apply (Hquiet v _ (or_introl eq_refl) H)|].
+    destruct (write v bs) as [v1 r] eqn:Es. inversion H; subst v1 nw r; clear H.
+    destruct (write_calls _ _ _ _ Es) as (Hc & Hs & He & Hcl).
+    split; [assumption|]. split; [assumption|]. split; [assumption|].
+    split; [congruence|]. intros w Hw; discriminate.
+  - destruct (dead fr v) eqn:Ed; [symmetry in H; apply (Hquiet v _ (or_introl eq_refl) H)|].
+    destruct (contiguous step); [|symmetry in H; apply (Hquiet v _ (or_introl eq_refl) H)].
+    inversion H; subst v' nw out; clear H. cbn [o_calls o_res ok].
+    split; [intros c []|]. split; [reflexivity|]. split; [reflexivity|]. split; [tauto|].
+    intros w Hw. injection Hw as Hw. subst w. exists a, b, step.
+    split; [reflexivity|]. split; [reflexivity|]. split; reflexivity.
+  - destruct (dead fr v) eqn:Ed; symmetry in H; apply (Hquiet v _ (or_introl eq_refl) H).
+  - symmetry in H; apply (Hquiet v _ (or_introl eq_refl) H).
+  - destruct (dead fr v) eqn:Ed; symmetry in H; apply (Hquiet v _ (or_introl eq_refl) H).
+  - destruct (dead fr v) eqn:Ed; symmetry in H; apply (Hquiet v _ (or_introl eq_refl) H).
+  - destruct (v_closed v) eqn:Ec; [symmetry in H; apply (Hquiet v _ (or_introl eq_refl) H)|].
+    destruct fr; [symmetry in H; apply (Hquiet v _ (or_introl eq_refl) H)|].
+    symmetry in H; apply (Hquiet _ _ (or_intror eq_refl) H).
+Qed.
